@@ -20,13 +20,18 @@ import (
 // use it as the common starting state. Everything is deterministic in (Params, FarmOpts).
 
 // FarmKinds lists the kinds Farm.Make can build, in a fixed order.
+// EXPIRE_VOTES comes first: a user's expiry only succeeds in the one block right after the
+// voting deadline (the application expires the proposal by itself at the end of that block),
+// and the prefix ends exactly at that deadline; PROPOSAL_FINALIZE and PROPOSAL_VOTE follow
+// for the same kind of reason (self-finalisation one block after passing, voting deadline).
 var FarmKinds = []string{
+	"EXPIRE_VOTES", "PROPOSAL_FINALIZE", "PROPOSAL_VOTE",
 	"SEND", "SENDPOOL",
 	"STAKE", "UNSTAKE", "WITHDRAW", "WITHDRAW_REWARD",
 	"ADD_NETWORK_DELEGATE", "NETWORK_UNDELEGATE", "REWARDS_WITHDRAW_NETWORK_DELEGATE", "REWARDS_REINVEST_NETWORK_DELEGATE",
 	"ALLEGATION", "ALLEGATION_VOTE", "RELEASE",
 	"DOMAIN_CREATE", "DOMAIN_UPDATE", "DOMAIN_SELL", "DOMAIN_PURCHASE", "DOMAIN_SEND", "DOMAIN_RENEW", "DOMAIN_DELETE_SUB",
-	"PROPOSAL_CREATE", "PROPOSAL_FUND", "PROPOSAL_CANCEL", "PROPOSAL_VOTE", "PROPOSAL_WITHDRAW_FUNDS", "PROPOSAL_FINALIZE", "EXPIRE_VOTES",
+	"PROPOSAL_CREATE", "PROPOSAL_FUND", "PROPOSAL_CANCEL", "PROPOSAL_WITHDRAW_FUNDS",
 	"ETH_LOCK", "ETH_REDEEM", "ERC20_LOCK", "ERC20_REDEEM", "ETH_REPORT_FINALITY_MINT",
 	"OLVM",
 }
@@ -52,7 +57,7 @@ func FarmParams(seed string) sim.Params {
 	p.Evidence.MinVotesRequired = 1
 	p.Evidence.ValidatorReleaseTime = 0
 	p.PropFundingDL = 40
-	p.PropVotingDL = 40
+	p.PropVotingDL = 6 // a proposal funded in block 3 is in voting until the last prefix block (9)
 	p.RewardPoolFund = "1000000000000000000000000"
 	p.PreEthBalances = nil
 	return p
@@ -133,7 +138,7 @@ func BuildFarm(w *World, o FarmOpts) *Farm {
 		txgen.DomainCreate(A, A.Addr, A.Addr, "alice.ol", "http://a.b", txgen.Amt("OLT", olt(1001)), fee, memo()),
 		txgen.DomainCreate(A, A.Addr, A.Addr, "shop.ol", "http://s.h", txgen.Amt("OLT", olt(1001)), fee, memo()),
 		txgen.Unstake(v[0].Key.Addr, v[0].Stake.Addr, txgen.Amt("OLT", big.NewInt(10)), fee, memo(), v[0].Stake, v[0].Key),
-		mkProp("fund"), mkProp("cancel"), mkProp("vote"), mkProp("withdraw"), mkProp("finalize"),
+		mkProp("fund"), mkProp("cancel"), mkProp("vote"), mkProp("withdraw"), mkProp("finalize"), mkProp("expire"),
 		txgen.EthLock(A, A.Addr, f.LockRaw, fee, memo()),
 	)
 	run(
@@ -141,8 +146,7 @@ func BuildFarm(w *World, o FarmOpts) *Farm {
 		txgen.Allegation(v[1].Key, "reqV", v[1].Key.Addr, v[3].Key.Addr, 1, "proof", fee, memo()),
 		txgen.DomainCreate(A, A.Addr, A.Addr, "sub.alice.ol", "http://a.b", txgen.Amt("OLT", olt(1001)), fee, memo()),
 		txgen.DomainSale(A, A.Addr, "shop.ol", txgen.Amt("OLT", olt(10)), false, fee, memo()),
-		txgen.ProposalFund(B, f.P["vote"], B.Addr, txgen.Amt("OLT", goal), fee, memo()),
-		txgen.ProposalFund(B, f.P["finalize"], B.Addr, txgen.Amt("OLT", goal), fee, memo()),
+		txgen.ProposalFund(B, f.P["expire"], B.Addr, txgen.Amt("OLT", goal), fee, memo()), // voting deadline = 3 + 6
 		txgen.ProposalCancel(A, f.P["withdraw"], A.Addr, "changed my mind", fee, memo()),
 		txgen.Undelegate(A, A.Addr, txgen.Amt("OLT", olt(40)), fee, memo()),
 	)
@@ -153,7 +157,12 @@ func BuildFarm(w *World, o FarmOpts) *Farm {
 	)
 	run()
 	run()
-	// last prefix block: the votes that make the "finalize" proposal pass (the application
+	run()
+	run(
+		txgen.ProposalFund(B, f.P["vote"], B.Addr, txgen.Amt("OLT", goal), fee, memo()),
+		txgen.ProposalFund(B, f.P["finalize"], B.Addr, txgen.Amt("OLT", goal), fee, memo()),
+	)
+	// last prefix block (9): the votes that make the "finalize" proposal pass (the application
 	// finalises a passed proposal by itself at the end of the following block)
 	var votes []txgen.Tx
 	for i := 0; i < 3; i++ {
@@ -241,7 +250,7 @@ func (f *Farm) Make(kind string) (txgen.Tx, error) {
 	case "PROPOSAL_FINALIZE":
 		return txgen.ProposalFinalize(A, f.P["finalize"], A.Addr, fee, memo), nil
 	case "EXPIRE_VOTES":
-		return txgen.ExpireVotes(A, f.P["fund"], A.Addr, fee, memo), nil
+		return txgen.ExpireVotes(A, f.P["expire"], A.Addr, fee, memo), nil
 	case "ETH_LOCK":
 		raw := txgen.EthLockRaw(f.E, f.ethNonce(), &sim.LockRedeemContract, big.NewInt(1000+k))
 		return txgen.EthLock(A, A.Addr, raw, fee, memo), nil
